@@ -295,6 +295,14 @@ func c08Run(c *fw.Ctx, b fw.Batch) {
 		}
 		mimetype.SetLimit(3072)
 	case "big":
+		// more than 4 KiB and 64 KiB of RFC 8259 white space in front of / behind a small document
+		for _, n := range []int{4095, 4096, 5000, 70000} {
+			for _, ws := range []string{" ", "\n", " \r\n\t"} {
+				pad := strings.Repeat(ws, n/len(ws)+1)
+				d := []byte(pad + `{"k":[1,2,{"a":"b"}]}` + pad)
+				c08JudgeDoc(c, t, "padded", d, []uint32{0, uint32(len(d) + 1), uint32(len(d)), uint32(len(pad) + 5), 1 << 20}, false)
+			}
+		}
 		// documents of 5 MiB and 17 MiB examined in full (limit 0, limit > len) and cut late
 		for _, size := range []int{5 << 20, 17 << 20} {
 			var sb bytes.Buffer
